@@ -1,14 +1,19 @@
 """C17 — generic classes behave like their monomorphised copies.
 
-Abstract program ("world"): a single-inheritance chain of generic classes (attrs / dataclass / TypedDict, written with
-`typing.Generic[...]` or PEP 695 syntax, PEP 696 defaults, generic aliases, a nested generic `In[T]`, a class that is
-merely *called* `T`), a target (`G[args]` or the bare class) and two argument tuples.  The world is realised by
+Abstract program ("world"): a chain of generic classes (attrs / dataclass / TypedDict, written with
+`typing.Generic[...]` or PEP 695 syntax, PEP 696 defaults, generic aliases -- one parameter `A[X] = list[X]`, parameters
+in another order than they appear `R[X, Y] = dict[Y, X]`, an unused parameter `Q[X, Y] = list[Y]` --, a nested generic
+`In[T]`, a class that is merely *called* `T`; any level may additionally list a plain non-generic mixin base before or
+after its parametrised base (multiple inheritance); attrs fields may carry a tagging / identity field converter; keys
+of TypedDicts may be `NotRequired`), a target (`G[args]` or the bare class) and two argument tuples.  The world is realised by
 `exec` of generated source; the non-generic monomorphised copy is generated from the same description by substituting
 the arguments (harness-side substitution, written from the property statement, independent of the Lean model).
 
 Oracle P (implementation only): `structure` / `unstructure` of `G[args]` — on ONE converter shared by both
 parametrisations and on fresh ones, detailed validation on and off, valid and mutated payloads — give exactly the
-results of the copy; an unbound parameter without default is refused.
+results of the copy (in the copy generic aliases are expanded by the harness's own substitution); an unbound parameter
+without default is refused FOR EVERY PAYLOAD (full, minimal = None / empty collections / absent NotRequired keys, random):
+the refusal must not depend on whether the payload reaches the parameter.
 
 Correspondence (model vs implementation, pure functions, compared directly):
   corr:C17:DCW      `deep_copy_with(t, mapping, self_is)`        == model `deepCopyWith`
@@ -16,7 +21,8 @@ Correspondence (model vs implementation, pure functions, compared directly):
   corr:C17:RESOLVE  field types bound into the generated hook      == model `structGen` (and refusal == `refuses`)
   corr:C17:RESOLVEUN types whose hooks the unstructure generator requests == model `unstructGen`
   corr:C17:MONO     field types of the harness's copy              == model `monoFields` (ties the Lean spec to the oracle)
-  corr:C17:ALIAS    type handed on by `type_alias_structure_factory` == model `aliasResolve`
+  corr:C17:ALIAS    type handed on by `type_alias_structure_factory` == model `aliasResolve` (aliases with 1-3 parameters,
+                    declared in any order, used any number of times or not at all; theorem `C17_alias`)
   corr:C17:MANGLE   `__name__` of the generated structure hook     == model `mangle`
 Recorded findings F27-F29 are recognised by the *shape of the input* (predicates below); their Lean negative witnesses
 are replayed on the real code in every run.  F40 (recursive TypedDicts: the outcome depended on the call-stack depth,
@@ -209,6 +215,32 @@ def tvars(a):
     return {x[1] for x in walk(a) if x[0] == "tv"}
 
 
+# PEP 695 generic aliases every world defines: name -> (declared parameters, value).  `R` uses its parameters in another
+# order than it declares them, `Q` does not use its first parameter at all.
+ALIASES = {
+    "A": (["X"], ["app", "list", [["tv", "X"]]]),
+    "R": (["X", "Y"], ["app", "dict", [["tv", "Y"], ["tv", "X"]]]),
+    "Q": (["X", "Y"], ["app", "list", [["tv", "Y"]]]),
+}
+
+
+def expand_aliases(a):
+    """the oracle's own reading of a generic alias: `Alias[args]` IS its value with every parameter replaced by the
+    argument given for that parameter (matched by declared position)"""
+    k = a[0]
+    if k == "app":
+        args = [expand_aliases(x) for x in a[2]]
+        if a[1] in ALIASES:
+            ps, value = ALIASES[a[1]]
+            return subst(value, dict(zip(ps, args)))
+        return ["app", a[1], args]
+    if k == "ann":
+        return ["ann", expand_aliases(a[1]), a[2]]
+    if k == "pu":
+        return ["pu", [expand_aliases(x) for x in a[1]]]
+    return a
+
+
 # =====================================================================================================
 # source generation
 # =====================================================================================================
@@ -219,7 +251,17 @@ import typing, typing_extensions, attrs, dataclasses
 from typing_extensions import Self, NotRequired
 from attrs import define
 from dataclasses import dataclass
+
+
+def _ktag(v):
+    return ("K", v)
+
+
+def _kid(v):
+    return v
 """
+
+CONVERTERS = {"tag": "_ktag", "id": "_kid"}
 
 BUILTIN_LEAVES = {"int": "int", "str": "str", "float": "float", "bool": "bool", "None": "None", "...": "..."}
 
@@ -258,9 +300,33 @@ def fresh_suffix():
     return "_w%d" % _uid[0]
 
 
+def field_line(fn, a, names, kind, dflt_none, conv):
+    """one annotated assignment of a class body; `conv`: name of a field converter (attrs classes only)"""
+    if conv and kind == "attrs":
+        return "    %s: %s = attrs.field(%sconverter=%s)" % (fn, src(a, names), "default=None, " if dflt_none else "",
+                                                             CONVERTERS[conv])
+    return "    %s: %s%s" % (fn, src(a, names), " = None" if dflt_none and kind != "typeddict" else "")
+
+
+def mixin_source(kind, name, fields, names):
+    """a non-generic base class: a plain Python class (an empty TypedDict for TypedDicts) when it has no fields,
+    otherwise a class of the world's kind"""
+    if kind == "typeddict":
+        return "class %s(TypedDict):\n    pass\n" % name
+    if not fields:
+        return "class %s:\n    def describe(self):\n        return type(self).__name__\n" % name
+    deco = {"attrs": "@define\n", "dataclass": "@dataclass\n"}[kind]
+    return deco + "class %s:\n%s\n" % (name, "\n".join("    %s: %s" % (fn, src(a, names)) for fn, a in fields))
+
+
 class World:
     """Realised world.  spec = {kind, style, helpers.., levels:[{name, params, defaults, generic_base, own, base_args,
-    dflt_none:[field names with `= None`]}], target: 'alias'|'bare'}"""
+    dflt_none:[field names with `= None`], conv:{field name: 'tag'|'id'} (attrs only),
+    mixin: None | {pos: 'before'|'after', fields:[(name, closed annotation)]}}], target: 'alias'|'bare'}
+
+    A mixin is a non-generic base listed before / after the parametrised base.  Its fields (attrs / dataclass, position
+    `before` only) are collected after the parametrised base's and before the class's own (reversed MRO): the model is
+    told about them as leading own fields of that level (`model_own`)."""
 
     def __init__(self, spec):
         self.spec = spec
@@ -285,9 +351,11 @@ class World:
         self.names["Leaf"] = "Leaf" + sfx
         self.names["In"] = "In" + sfx
         self.names["T!cls"] = "TCls" + sfx
-        self.names["A"] = "A" + sfx
-        for lv in spec["levels"]:
+        for al in ALIASES:
+            self.names[al] = al + sfx
+        for i, lv in enumerate(spec["levels"]):
             self.names[lv["name"]] = lv["name"] + sfx
+            self.names["Mx%d" % i] = "Mx%d%s" % (i, sfx)
         for n in sorted(tv_names):
             if n in dflts:
                 lines.append("%s = typing_extensions.TypeVar(%r, default=%s)" % (n, n, src(dflts[n], self.names)))
@@ -296,18 +364,26 @@ class World:
         lines.append("@define\nclass Leaf%s:\n    v: int\n" % sfx)
         lines.append("@define\nclass In%s(Generic[T]):\n    v: T\n" % sfx)
         lines.append("TCls%s = attrs.make_class('T', {'v': attrs.field(type=int)})" % sfx)
-        lines.append("type A%s[X] = list[X]" % sfx)
+        for al, (ps, value) in ALIASES.items():
+            lines.append("type %s%s[%s] = %s" % (al, sfx, ", ".join(ps), src(value, self.names)))
         deco = {"attrs": "@define\n", "dataclass": "@dataclass\n", "typeddict": ""}[kind]
         levels = spec["levels"]
         for i in range(len(levels) - 1, -1, -1):
             lv = levels[i]
             bases = []
+            mx = lv.get("mixin")
+            if mx:
+                lines.append(mixin_source(kind, self.names["Mx%d" % i], mx["fields"], self.names))
+                if mx["pos"] == "before":
+                    bases.append(self.names["Mx%d" % i])
             if i + 1 < len(levels):
                 b = levels[i + 1]
                 bases.append("%s[%s]" % (self.names[b["name"]], ", ".join(src(a, self.names) for a in lv["base_args"]))
                              if lv["base_args"] else self.names[b["name"]])
-            elif kind == "typeddict":
+            elif kind == "typeddict" and not mx:
                 bases.append("TypedDict")
+            if mx and mx["pos"] == "after":
+                bases.append(self.names["Mx%d" % i])
             pep695 = spec["style"] == "pep695" and lv["params"]
             if lv["generic_base"] and not pep695 and lv["params"]:
                 bases.append("Generic[%s]" % ", ".join(lv["params"]))
@@ -316,8 +392,7 @@ class World:
                                       "(%s)" % ", ".join(bases) if bases else "")
             body = []
             for fn, a in lv["own"]:
-                d = " = None" if fn in lv.get("dflt_none", []) and kind != "typeddict" else ""
-                body.append("    %s: %s%s" % (fn, src(a, self.names), d))
+                body.append(field_line(fn, a, self.names, kind, fn in lv.get("dflt_none", []), lv.get("conv", {}).get(fn)))
             lines.append(deco + head + "\n" + ("\n".join(body) if body else "    pass") + "\n")
         self.source = "\n".join(lines)
         self.ns = {}
